@@ -4,7 +4,7 @@ import json, os, re, subprocess, sys, time, shutil, hashlib, glob
 
 VERIF = os.path.dirname(os.path.dirname(os.path.abspath(__file__)))
 REPO = os.environ.get('VERIF_REPO', '/repo')
-BUILD = os.path.join(VERIF, 'build')
+BUILD = os.environ.get('VERIF_BUILD', os.path.join(VERIF, 'build'))     # (VERIF_BUILD / VERIF_REPO: side-by-side experiments on another tree; the registered commands use the defaults)
 SPEC = os.path.join(VERIF, 'spec')
 TLA_CP = '/opt/veriftools/tla/tla2tools.jar:/opt/veriftools/tla/CommunityModules-deps.jar'
 GUARD = 'kondziu_fml_verif'
